@@ -303,7 +303,72 @@ def _run_hist(case):
     return dict(stats=st, findings=f, samples=samples, nontrivial=cnt['n'])
 
 
+def _nonfinite_check(cls, method, centre, what):
+    """non-finite data / error pixels are excluded exactly like masked ones
+    (the symbolic model has NaN but no +-inf)."""
+    from photutils.profiles import CurveOfGrowth, RadialProfile
+    rng = np.random.default_rng(3)
+    H, W = 15, 17
+    data = rng.normal(10.0, 1.0, (H, W))
+    err = 0.5 + 0.01 * np.arange(W)[None, :] + 0.02 * np.arange(H)[:, None]
+    xycen = dict(mid=(8.2, 7.4), edge=(1.3, 12.8))[centre]
+    rad = np.array([0.0, 1.5, 3.0, 4.5, 6.0])
+    bad = [(7, 8), (5, 9), (9, 6)] if centre == 'mid' else [(12, 1), (13, 3),
+                                                            (10, 2)]
+    vals = dict(nan=[np.nan] * 3, inf=[np.inf, -np.inf, np.inf],
+                mix=[np.inf, np.nan, -np.inf])[what]
+    d2, e2 = data.copy(), err.copy()
+    for (y, x), v in zip(bad[:2], vals[:2]):
+        d2[y, x] = v
+    e2[bad[2]] = abs(vals[2]) if not np.isnan(vals[2]) else np.nan
+    mk = np.zeros((H, W), bool)
+    for y, x in bad:
+        mk[y, x] = True
+    C = CurveOfGrowth if cls == 'cog' else RadialProfile
+    rr = rad[1:] if cls == 'cog' else rad
+    with warnings.catch_warnings():
+        warnings.simplefilter('ignore')
+        a = C(d2, xycen, rr, error=e2, method=method, subpixels=3)
+        b = C(data, xycen, rr, error=err, mask=mk, method=method,
+              subpixels=3)
+        for q in ('profile', 'profile_error', 'area'):
+            va, vb = np.asarray(getattr(a, q)), np.asarray(getattr(b, q))
+            if not np.allclose(va, vb, rtol=1e-12, atol=0, equal_nan=True):
+                return (f'{cls} {method} {centre}: {q} with {what} pixels '
+                        f'{va} != with the same pixels masked {vb}')
+    return None
+
+
+def _run_nonfinite(case):
+    cnt = dict(n=0)
+
+    def fn(ctx):
+        cls = ctx.choice('cls', ['cog', 'rp'])
+        method = ctx.choice('method', ['exact', 'center', 'subpixel'])
+        centre = ctx.choice('centre', ['mid', 'edge'])
+        what = ctx.choice('what', ['nan', 'inf', 'mix'])
+        ctx.stats.obligations += 1
+        cnt['n'] += 1
+        msg = _nonfinite_check(cls, method, centre, what)
+        if case.get('twin') and msg is None and what == 'inf':
+            msg = 'twin: deliberately mis-specified'
+        if msg is None:
+            ctx.stats.unsat += 1
+        else:
+            ctx.stats.sat += 1
+            ctx.find(f'nonfinite:{cls}:{what}', msg, ctx.witness(),
+                     params=dict(kind='nonfinite', cls=cls, method=method,
+                                 centre=centre, what=what,
+                                 twin=bool(case.get('twin'))))
+
+    _, st, f = explore(fn)
+    return dict(stats=st, findings=f, samples=[dict(case='nonfinite')],
+                nontrivial=cnt['n'])
+
+
 def run_case(case):
+    if case['kind'] == 'nonfinite':
+        return _run_nonfinite(case)
     return _run_hist(case) if case['kind'] == 'hist' else _run_sym(case)
 
 
@@ -342,6 +407,8 @@ def cases(tier, seed):
         nan='none')
     sym('cog', (4, 4), 'mid', 'from0', ('exact', 5), False, twin='decreasing',
         nan='none')
+    cs.append(dict(kind='nonfinite', name='nonfinite-like-masked'))
+    cs.append(dict(kind='nonfinite', name='nonfinite-twin', twin=True))
     for cls in ('rp', 'cog'):
         cs.append(dict(kind='hist', name=f'history-{cls}', cls=cls,
                        len=4 if tier == 'quick' else 5))
@@ -360,6 +427,11 @@ def replay(f):
     p = f['params']
     if p['kind'] == 'hist':
         msg = _hist_check(p['cls'], p['hist'])
+        return msg is not None, str(msg)
+    if p['kind'] == 'nonfinite':
+        if p.get('twin'):
+            return False, 'twin'
+        msg = _nonfinite_check(p['cls'], p['method'], p['centre'], p['what'])
         return msg is not None, str(msg)
     w = f['witness']
     H, W = p['shape']
